@@ -204,6 +204,10 @@ enum Op {
   InsertKeyId { digest: usize, slot: usize },
   GetKeyId { digest: usize },
   DeleteKeyId { digest: usize },
+  /// the store's other key family: a BBS+ (BLS12381G2) key generated through `JwkStorageBbsPlusExt`
+  GenerateBbs,
+  /// `sign` (the EdDSA entry point) for the key id of a BBS+ key, with the public JWK of an Ed25519 key
+  SignWithBbsKeyId,
 }
 
 #[derive(Clone, Debug)]
@@ -247,6 +251,8 @@ struct Shared {
   /// key ids come from the store's own generator in this run (not from the seam)
   production_ids: bool,
   aliases: RefCell<BTreeMap<String, String>>,
+  /// key ids of BBS+ keys in the store
+  bbs_pool: RefCell<Vec<String>>,
 }
 
 impl Shared {
@@ -264,6 +270,15 @@ impl Shared {
     if id.len() > 1 {
       ctx::scrub(&id[..id.len() - 1], format!("{alias}~"));
     }
+    a.insert(id.to_owned(), alias);
+  }
+  fn alias_always(&self, id: &str) {
+    let mut a = self.aliases.borrow_mut();
+    if a.contains_key(id) {
+      return;
+    }
+    let alias = format!("B{:03}", a.len() + 1);
+    ctx::scrub(id, alias.clone());
     a.insert(id.to_owned(), alias);
   }
   fn tick(&self) -> u64 {
@@ -588,6 +603,62 @@ async fn run_op(sh: &Shared, client: usize, op: Op) {
         Err(e) => Ret::Err(format!("{:?}", e.kind())),
       };
     }
+    Op::GenerateBbs => {
+      kind = "generate_bbs";
+      use identity_storage::JwkStorageBbsPlusExt;
+      result = match sh.jwk.generate_bbs(KeyType::new("BLS12381G2"), jsonprooftoken::jpa::algs::ProofAlgorithm::BLS12381_SHA256).await {
+        Ok(out) => {
+          let id = out.key_id.as_str().to_owned();
+          // (this path has no key-id seam: the id always comes from production code)
+          sh.alias_always(&id);
+          if sh.publics.borrow().contains_key(&id) || sh.bbs_pool.borrow().contains(&id) {
+            ctx::violation("C15", "C15.generate_fresh_key_id", "generate_bbs/key-id-reused", format!("generate_bbs returned key id {id} which was issued before"));
+          }
+          sh.bbs_pool.borrow_mut().push(id.clone());
+          ctx::stat("probe.bbs_key_generated");
+          Ret::Created(id)
+        }
+        Err(e) => Ret::Err(format!("{:?}", e.kind())),
+      };
+    }
+    Op::SignWithBbsKeyId => {
+      kind = "sign_with_bbs_key_id";
+      let id = sh.bbs_pool.borrow().last().cloned();
+      let pk = sh.publics.borrow().values().next().cloned();
+      result = match (id, pk) {
+        (Some(id), Some(pk)) => {
+          arg = id.clone();
+          use futures::FutureExt;
+          let data = ctx::bytes(16);
+          match std::panic::AssertUnwindSafe(sh.jwk.sign(&KeyId::new(id.clone()), &data, &pk)).catch_unwind().await {
+            Ok(Ok(_)) => {
+              ctx::violation(
+                "C15",
+                "C15.signature_verifies_under_own_key",
+                "sign/bbs-key-id-with-ed25519-public-key/signed",
+                format!("sign returned an EdDSA signature for the BBS+ key id {id}"),
+              );
+              Ret::Signed
+            }
+            Ok(Err(e)) => {
+              ctx::stat("probe.sign_with_bbs_key_id_refused");
+              Ret::Err(format!("{:?}", e.kind()))
+            }
+            Err(p) => {
+              let msg = p.downcast_ref::<String>().cloned().or_else(|| p.downcast_ref::<&str>().map(|s| (*s).to_owned())).unwrap_or_default();
+              ctx::violation(
+                "C15",
+                "C15.mismatched_public_key_is_an_error",
+                "sign/bbs-key-id-with-ed25519-public-key/panic",
+                format!("sign(key id of a BBS+ key, public JWK of an Ed25519 key) panicked instead of returning an error: {msg}"),
+              );
+              Ret::Err("panic".to_owned())
+            }
+          }
+        }
+        _ => Ret::Refused,
+      };
+    }
     Op::DeleteKeyId { digest } => {
       kind = "delete_key_id";
       object = Some(format!("digest:{digest}"));
@@ -733,6 +804,10 @@ fn draw_slot(n_slots: usize) -> usize {
 }
 
 fn gen_op(n_slots: usize, n_digests: usize, invalid_bias: u32) -> Op {
+  // one operation in forty concerns the store's BBS+ keys
+  if ctx::chance(1, 40) {
+    return if ctx::choose(2) == 0 { Op::GenerateBbs } else { Op::SignWithBbsKeyId };
+  }
   match ctx::weighted(&[5, 3, 6, 4, 3, 5, 4, 3]) {
     0 => {
       if ctx::chance(invalid_bias, 10) {
@@ -933,6 +1008,7 @@ impl Engine for KsEngine {
       last_inserted: RefCell::new(None),
       production_ids,
       aliases: RefCell::new(BTreeMap::new()),
+      bbs_pool: RefCell::new(Vec::new()),
     };
 
     // ---- scripts ----
